@@ -27,8 +27,11 @@ Definition out_blocks (r : out) : list blk :=
   match r with RGet _ (Some b) => [b] | RGetMany l => map fst l | _ => [] end.
 Definition req_of (o : op) : list cid :=
   match o with OGet _ c _ => [c] | OGetMany _ ks _ => ks | _ => [] end.
-Definition fetched (evs : list ev) : list cid :=
-  flat_map (fun e => match e with EvFetch1 _ c => [c] | EvFetchN _ cs => cs | _ => [] end) evs.
+(** CIDs asked from an exchange during the call — ANY exchange: a request that reaches another block
+    service's exchange ([EvForeign]) counts as well *)
+Fixpoint ev_fetched (e : ev) : list cid :=
+  match e with EvFetch1 _ c => [c] | EvFetchN _ cs => cs | EvForeign e' => ev_fetched e' | _ => [] end.
+Definition fetched (evs : list ev) : list cid := flat_map ev_fetched evs.
 
 (** only requested CIDs are returned / emitted — and only requested CIDs are asked from the exchange *)
 Definition req_ok (o : op) (evs : list ev) (r : out) : bool :=
